@@ -37,7 +37,7 @@ IDENTITY_CALLS = {
     'std::future::IntoFuture::into_future', 'std::string::String::as_str',
     'std::string::ToString::to_string', 'std::path::Path::new', 'std::ffi::OsString::as_os_str',
     'std::path::PathBuf::into_os_string', 'std::vec::Vec::<T, A>::as_slice',
-    'std::option::Option::<T>::as_deref', 'std::convert::identity', 'std::option::Option::<T>::filter',      # (filter: the same value or None - the predicate only decides)
+    'std::option::Option::<T>::as_deref', 'std::convert::identity',
     'std::iter::IntoIterator::into_iter', 'std::option::Option::<T>::take',
     'std::path::Path::as_ref', 'std::ffi::OsStr::new', "std::borrow::Cow::<'_, B>::into_owned",
     'std::result::Result::<T, E>::map_err', 'std::result::Result::<T, E>::ok', 'blake3::Hash::as_bytes', 'hash::StrongHash::as_bytes',
@@ -48,7 +48,7 @@ COMBINATOR_CALLS = {
     'std::option::Option::<T>::map_or_else', 'std::option::Option::<T>::map_or', 'std::option::Option::<T>::map',
     'std::option::Option::<T>::unwrap_or_default', 'std::option::Option::<T>::unwrap_or_else',
     'std::option::Option::<T>::unwrap_or', 'std::option::Option::<T>::or_else', 'std::option::Option::<T>::or',
-    'std::option::Option::<T>::and_then', 'std::option::Option::<T>::ok_or_else',
+    'std::option::Option::<T>::and_then', 'std::option::Option::<T>::filter', 'std::option::Option::<T>::ok_or_else',
     'std::option::Option::<T>::ok_or', 'std::result::Result::<T, E>::unwrap_or_default',
     'std::result::Result::<T, E>::unwrap_or_else', 'std::result::Result::<T, E>::unwrap_or',
     'std::result::Result::<T, E>::map', 'std::result::Result::<T, E>::and_then',
@@ -790,6 +790,12 @@ class Flow:
             return
         if c in COMBINATOR_CALLS and t['args']:
             out.add(Origin('comb', c, path, bb))
+            if c.endswith('::filter'):
+                # the same value or None: the predicate only DECIDES (what it captured is not where the value comes from); the
+                # marker stays, so a rule that needs an unconditional copy chain still sees that the value can be dropped
+                for x in self.origins(t['args'][0], path, depth, interproc, seen, mut_calls):
+                    out.add(x)
+                return
             for i, a in enumerate(t['args']):
                 for x in self.origins(a, path if i == 0 else (), depth, interproc, seen, mut_calls):
                     out.add(x)
